@@ -5,6 +5,7 @@ mod case;
 mod gen;
 mod interp;
 mod matrix;
+mod sweep;
 mod world;
 
 use vcore::drive::{Ctx, Engine, Report, Stage, Tier};
@@ -82,6 +83,13 @@ impl Engine for Msim {
             cases,
             strategy: gen::case(p),
         }];
+        if matches!(ctx.prop.as_str(), "C01" | "C02" | "C03" | "C06" | "C07" | "C09" | "C11") {
+            stages.push(Stage {
+                name: "sweep".into(),
+                cases: if thorough { 16 * 600 } else { 16 * 40 },
+                strategy: gen::sweep_case(&ctx.prop, thorough),
+            });
+        }
         if ctx.prop == "C03" {
             stages.insert(
                 0,
@@ -98,6 +106,8 @@ impl Engine for Msim {
     fn run(ctx: &Ctx, case: &case::Case) -> Report {
         if case.matrix.is_some() {
             matrix::run(ctx, case)
+        } else if case.sweep.is_some() {
+            sweep::run(ctx, case)
         } else {
             interp::Interp::new(ctx, case).run()
         }
